@@ -22,7 +22,7 @@ from .. import nf, vg
 from ..core import Ctx
 from ..model import AnalysisError
 
-FLOOR = 33
+FLOOR = 34
 EXPLANATION = (
     "Static analysis of rl4co/utils/decoding.py (DecodingStrategy.step, pre_decoder_hook, BeamSearch.pre_decoder_hook, "
     "get_log_likelihood, Evaluate), ConstructivePolicy.forward and PPO.shared_step: append pairing of the action/log-prob "
